@@ -359,7 +359,7 @@ Proof.
     Forall (fun pf : pairs * list fieldspec => incl (snd pf) label_tbl) l0).
   { intros l0 H. destruct (mapM _ (pd_labels d)) as [l| | |] eqn:E; cbn [bind] in H; try discriminate. inv H.
     apply Forall_app. split; [|constructor; [exact common_labels_in_tbl|constructor]].
-    apply mapM_Forall2P in E. unfold no_custom_fields in Hn.
+    apply mapM_Forall2P in E. destruct Hn as [Hn _].
     clear -E Hn. induction E as [|e pf te tl He _ IH]; [constructor|].
     inversion Hn; subst. constructor; [|auto].
     destruct (Labels.label_fs LabelsDefaults.default_tc e) as [fss| | |] eqn:EF; cbn [bind] in He; try discriminate.
@@ -590,7 +590,8 @@ Section Acc.
 
   Lemma run_kind_Inv k d m m' : dirs_wf d -> Inv m -> run_kind nonstr k d m = Ok m' -> Inv m'.
   Proof.
-    intros ([Hrp Him] & Hns & Hn & _ & _ & _ & Hp & Hs) [HW Hd]. unfold run_kind. rewrite Hrp, Him.
+    intros ([Hrp Him] & Hns & Hn & _ & _ & _ & Hp & Hs) [HW Hd]. unfold run_kind. rewrite Hrp, Him, (proj2 Hn).
+    destruct (String.eqb k "PatchTransformer"); [intros H; inv H; split; assumption|].
     destruct (String.eqb k "NamespaceTransformer").
     { intros H. destruct (namespace_transform_W _ _ _ Hns HW Hd H) as [W' D']. split; auto. }
     destruct (String.eqb k "PrefixTransformer").
@@ -835,7 +836,8 @@ Section NoPanic.
 
   Lemma np_run_kind k d m : dirs_wf d -> Inv m -> np (run_kind nonstr k d m).
   Proof.
-    intros ([Hrp Him] & Hns & _) [HW _]. unfold run_kind. rewrite Hrp, Him.
+    intros ([Hrp Him] & Hns & Hn & _) [HW _]. unfold run_kind. rewrite Hrp, Him, (proj2 Hn).
+    destruct (String.eqb k "PatchTransformer"); [discriminate|].
     destruct (String.eqb k "NamespaceTransformer").
     { unfold namespace_transform. destruct (String.eqb _ ""); [discriminate|apply np_ns_loop]. }
     destruct (String.eqb k "PrefixTransformer").
@@ -1228,7 +1230,7 @@ Definition clash_tree : ptree :=
 
 Ltac solve_creates := first [left; vm_compute; reflexivity | right; vm_compute; reflexivity].
 Ltac solve_dirs_wf :=
-  unfold dirs_wf, no_custom_fields, gens_create; cbn [pd_ns pd_prefix pd_suffix pd_labels pd_cmgens pd_secgens pd_replicas pd_images mkPDirs mkPDirsG];
+  unfold dirs_wf, no_custom_fields, gens_create; cbn [pd_ns pd_prefix pd_suffix pd_labels pd_cmgens pd_secgens pd_replicas pd_images pd_patches mkPDirs mkPDirsG mkPDirsX];
   repeat match goal with
          | |- _ /\ _ => split
          | |- Forall _ [] => constructor
